@@ -135,6 +135,9 @@ pub struct Exec {
     keys: HashMap<Key, KeyState>,
     pub tokens: Vec<Token>,
     oracle_on: bool,
+    /// `c11-raw`, in-bounds cases: every fragment is one `Ipv4::demux` would hand to the reassembler
+    /// (IHL 5, total length = 20 + data, data ends at or below octet 65515), so a panic is a failure
+    pub strict_panic: bool,
     pub completed_multi: u32,
     pub dup_before_completion: u32,
     pub culls_removed: u32,
@@ -142,7 +145,7 @@ pub struct Exec {
 
 impl Exec {
     pub fn new(oracle_on: bool) -> Self {
-        Exec { r: Reassembly::new(), dgs: vec![], keys: HashMap::new(), tokens: vec![], oracle_on, completed_multi: 0, dup_before_completion: 0, culls_removed: 0 }
+        Exec { r: Reassembly::new(), dgs: vec![], keys: HashMap::new(), tokens: vec![], oracle_on, strict_panic: false, completed_multi: 0, dup_before_completion: 0, culls_removed: 0 }
     }
 
     /// tell the oracle that `header/body` is an original datagram about to be fragmented
@@ -183,6 +186,11 @@ impl Exec {
                         out.count(&format!("result.{}", c));
                         if self.oracle_on {
                             out.fail(&format!("receive_packet panicked on a genuine fragment: {} ({})", c, p.msg), &format!("panic receive_packet {}", source_line_text(&p.file, p.line)));
+                        } else if self.strict_panic {
+                            out.fail(
+                                &format!("receive_packet panicked on a fragment within the bounds of IPv4 (IHL 5, total length {} = 20 + {} data octets, offset {}, flags {}): {} ({})", h.total_length, b.len(), h.fragment_offset, h.flags.as_u8(), c, p.msg),
+                                &format!("panic receive_packet {}", source_line_text(&p.file, p.line)),
+                            );
                         }
                         format!("P:{}", c)
                     }
@@ -560,8 +568,57 @@ fn maybe_fire(ex: &mut Exec, rng: &mut Rng, out: &mut Out, den: u64) {
     fire(ex, t, out);
 }
 
+/// `c11-raw`, second family: header-only and 1..7-octet fragments that are WITHIN the bounds of IPv4
+/// (IHL 5, total length = 20 + data, the data ends at or below octet 65515 — what `Ipv4::demux` lets
+/// through to the reassembler): MF set / last fragment; offsets 0, 1, around the byte boundaries of
+/// the block bit vector (7, 8, 9, 63, 64, 65 ...), the largest possible ones; few identifiers, so
+/// that they meet in one buffer; exact duplicates, the same offset with another length or the other
+/// MF value, neighbours that overlap; now and then a fragment that carries whole blocks, so that
+/// buffers complete through (and around) empty ranges.  Model/implementation correspondence, and no
+/// such fragment may make the reassembler panic.
+fn run_raw_tiny(rng: &mut Rng, out: &mut Out) {
+    let mut ex = Exec::new(false);
+    ex.strict_panic = true;
+    let n = rng.range(4, 16);
+    let mut prev: Option<(u64, u64, u64, usize)> = None; // ident, offset, flags, data octets
+    let src = 1 + rng.below(2);
+    for _ in 0..n {
+        if !ex.tokens.is_empty() && rng.chance(1, 8) {
+            let t = rng.below(ex.tokens.len() as u64) as usize;
+            fire(&mut ex, t, out);
+            continue;
+        }
+        let (ident, fo, flags, blen) = match prev {
+            Some((id, fo, fl, bl)) if rng.chance(2, 5) => match rng.below(5) {
+                0 => (id, fo, fl, bl),                          // exact duplicate
+                1 => (id, fo, fl, rng.below(8) as usize),       // same place, other length
+                2 => (id, fo, fl ^ 1, bl),                      // same place, MF flipped
+                3 => (id, fo.saturating_sub(1), fl, *rng.pick(&[8usize, 9, 15, 16])), // the block before, reaching into this one
+                _ => (id, fo + 1, fl, bl),                      // the next block
+            },
+            _ => {
+                let ro = rng.below(8190);
+                let fo = *rng.pick(&[0u64, 0, 0, 1, 1, 2, 7, 8, 9, 15, 16, 63, 64, 65, 512, 8184, 8188, 8189, ro]);
+                let rb = rng.below(8) as usize;
+                let blen = if rng.chance(1, 6) { *rng.pick(&[8usize, 16, 24, 64]) } else { *rng.pick(&[0usize, 0, 0, 1, 2, 7, rb]) };
+                (rng.below(2), fo, rng.below(4), blen)
+            }
+        };
+        // keep it inside IPv4's bounds: the data ends at or below octet 65515
+        let fo = fo.min(8189);
+        let blen = blen.min(65515 - fo as usize * 8);
+        prev = Some((ident, fo, flags, blen));
+        let line = format!("pkt 5 {} {} {} {} {} {} 17 {} {} 2 h:{}", rng.below(256), 20 + blen, ident, fo, flags, rng.below(256), rng.below(65536), src, hex(&rng.bytes(blen)));
+        ex.apply(&line, out);
+        out.count(if blen == 0 { "raw.tiny.empty" } else if blen < 8 { "raw.tiny.1-7" } else { "raw.tiny.blocks" });
+    }
+}
+
 /// arbitrary fragments (possibly malformed): only model/implementation correspondence
 fn run_raw(rng: &mut Rng, out: &mut Out) {
+    if rng.chance(2, 5) {
+        return run_raw_tiny(rng, out);
+    }
     let mut ex = Exec::new(false);
     let n = rng.range(3, 14);
     for _ in 0..n {
@@ -601,7 +658,7 @@ pub fn run(args: &Args) {
         "c11-overlap" => Stream::Overlap,
         _ => Stream::Plain,
     };
-    let rule = "1..5 datagrams (payload 1..65515) per case in rounds, each through a chain of 1..3 MTUs by the real fragmenter; fragments in order / reversed / shuffled, datagrams of a round interleaved, identifiers recycled once clean; expiry callbacks with current and stale tokens at random points; c11-dup repeats 1..3 fragments, c11-overlap mixes in fragments of the same datagram from a second chain; every ReceivePacketResult (header, payload digest, timeout, BufId, epoch), buffer presence around every cull and the buffer count are compared; a case is non-trivial if a datagram of >= 2 fragments was returned (dup/overlap: and a repeated/overlapping fragment arrived while pending); distinct = hash of its op lines";
+    let rule = "1..5 datagrams (payload 1..65515) per case in rounds, each through a chain of 1..3 MTUs by the real fragmenter; fragments in order / reversed / shuffled, datagrams of a round interleaved, identifiers recycled once clean; expiry callbacks with current and stale tokens at random points; c11-dup repeats 1..3 fragments, c11-overlap mixes in fragments of the same datagram from a second chain; c11-raw feeds arbitrary (also malformed) fragments and, in 2 of 5 cases, header-only and 1..7-octet fragments within IPv4's bounds (MF set / last; offsets 0, 1, around multiples of 8 and 64, the largest possible; duplicates, same offset with another length or MF value, overlapping neighbours, block-sized fragments in between) which must never make the reassembler panic; every ReceivePacketResult (header, payload digest, timeout, BufId, epoch), buffer presence around every cull and the buffer count are compared; a case is non-trivial if a datagram of >= 2 fragments was returned (dup/overlap: and a repeated/overlapping fragment arrived while pending); distinct = hash of its op lines";
     if let Some(rp) = &args.replay {
         let mut ex = Exec::new(true);
         out.begin_case(0);
